@@ -32,16 +32,19 @@ Env(c) == [H |-> c.H, W |-> c.W, img |-> [r \in 0..c.H-1 |-> F(c.img[r+1])],
            xs |-> F(c.xs), ys |-> F(c.ys), metric |-> c.metric, tab |-> <<>>,
            bound2 |-> c.bound2, maxn |-> c.maxn]
 
+\* allocation is compared by VALUE code (vcode); a tie broken differently is still "the value of a target
+\* at that distance"
 CellsEq(c) ==
   \A r \in 1..c.H, q \in 1..c.W :
      /\ c.dk.prox[r][q] = c.np.prox[r][q]
-     /\ c.dk.dir[r][q] = c.np.dir[r][q]
+     /\ \/ c.dk.dir[r][q] = c.np.dir[r][q]
+        \/ c.dk.alloc[r][q] # c.np.alloc[r][q]          \* different tie target: its bearing is judged by C06's clauses
      /\ \/ c.dk.alloc[r][q] = c.np.alloc[r][q]
-        \* a tie broken differently is still "the value of a target at that distance"
         \/ /\ c.dk.alloc[r][q] >= 0 /\ c.np.alloc[r][q] >= 0
-           /\ LET a == c.dk.alloc[r][q] e == Env(c) IN
-              /\ e.img[a \div c.W][a % c.W] = 1
-              /\ DD(e, r-1, q-1, a \div c.W, a % c.W) = c.np.prox[r][q]
+           /\ LET e == Env(c) IN
+              \E t \in (0..c.H-1) \X (0..c.W-1) :
+                 /\ e.img[t[1]][t[2]] = 1 /\ c.vcode[t[1]+1][t[2]+1] = c.dk.alloc[r][q]
+                 /\ DD(e, r-1, q-1, t[1], t[2]) = c.np.prox[r][q]
 
 Verdict(c) ==
   IF c.lazy = 0 THEN "result_not_dask_backed_before_compute"
